@@ -545,7 +545,7 @@ func DefaultResolveFn(p ResolveParams) (interface{}, error) {
 		val := r.MapIndex(reflect.ValueOf(p.Info.FieldName))
 		if val.IsValid() {
 			property := val.Interface()
-			if val.Type().Kind() == reflect.Func {
+			if pv := reflect.ValueOf(property); pv.IsValid() && pv.Type().Kind() == reflect.Func {
 				// try type casting the func to the most basic func signature
 				// for more complex signatures, user have to define ResolveFn
 				if propertyFn, ok := property.(func() interface{}); ok {
